@@ -828,7 +828,12 @@ def _random_site_constraint(repo, fn, c, d):
         return ok, "argument %s is initialised inside the group loop (local to one atom group)=%s" % (a.id, ok)
     if q == "quaternion_from_two_vectors":
         gs = norm_guards(fn, c)
-        ok = any(pol and "isclose" in ast.unparse(t) for t, pol, k in gs)
+        # the degenerate-axis test in any spelling: np.isclose(axis, 0).all(), np.allclose(axis, 0), norm(axis) < tol (its tolerance is judged by A14b)
+        def _degenerate_test(t):
+            return any(isinstance(x, ast.Call) and call_name(x) in ("isclose", "allclose") for x in ast.walk(t)) or \
+                (isinstance(t, ast.Compare) and len(t.ops) == 1 and isinstance(t.ops[0], (ast.Lt, ast.LtE)) and
+                 any(isinstance(x, ast.Call) and call_name(x) == "norm" for x in ast.walk(t.left)))
+        ok = any(pol and _degenerate_test(t) for t, pol, k in gs)
         return ok, "used only under the degenerate-axis test=%s" % ok
     if q == "replace_pattern_in_structure":
         gs = norm_guards(fn, c)
